@@ -137,8 +137,22 @@ fn run_window(ctx: &Ctx, pl: Placement, max_list: usize, tag: &str) {
     } else {
         vec![]
     };
-    common::par_for(total, 256, |li| {
-        let list = &lists[li as usize];
+    // every list is built in both configured orders (as written and reversed): the trie
+    // construction sorts its input, so a verdict that depends on the configured order of
+    // nested subnets sharing a base address would otherwise stay invisible
+    common::par_for(total * 2, 256, |li2| {
+        let li = li2 / 2;
+        let reversed = li2 % 2 == 1;
+        let base_list = &lists[li as usize];
+        if reversed && base_list.len() < 2 {
+            return;
+        }
+        let list_owned: Vec<usize> = if reversed {
+            base_list.iter().rev().copied().collect()
+        } else {
+            base_list.clone()
+        };
+        let list = &list_owned;
         let mut subnets = Vec::with_capacity(list.len());
         let mut nets = Vec::with_capacity(list.len());
         for (k, &pi) in list.iter().enumerate() {
@@ -226,7 +240,10 @@ fn run_window(ctx: &Ctx, pl: Placement, max_list: usize, tag: &str) {
         if !list.is_empty() && matched > 0 && matched < 2 * naddr as u64 {
             ctx.distinct(common::hash_of(&(tag, list)));
         }
-        if li % 40_009 == 7 {
+        if reversed {
+            ctx.add("lists_reversed_order", 1);
+        }
+        if li % 40_009 == 7 && !reversed {
             ctx.sample(format!("{tag}: subnets [{}] -> {} of {} window addresses listed", fmt_subnets(&subnets), matched, 2 * naddr));
         }
     });
@@ -388,16 +405,16 @@ fn check() {
         return;
     }
     ctx.rule(
-        "(a) every list of <=2 prefixes over an 8-bit window x every window address (host bits all-0 and all-1, \
+        "(a) every list of <=2 prefixes over an 8-bit window, in both configured orders, x every window address (host bits all-0 and all-1, \
          plain and IPv4-mapped form) at each placement; (b) every multiset of <=3 (quick) / <=4 (thorough) \
-         prefixes over a 5-bit window x every address; (c) IpSubnet::from_str on 22 address texts x masks 0..=255 \
+         prefixes over a 5-bit window, as written and reversed, x every address; (c) IpSubnet::from_str on 22 address texts x masks 0..=255 \
          + 9 malformed masks. Non-trivial & distinct = a (placement, list) whose subnets split the window \
          (some addresses listed, some not), or a distinct parse text whose address part is valid.",
     );
     ctx.assume("IPv4-mapped IPv6 client addresses and subnet strings are canonicalised to IPv4 first; IPv6 subnets never match canonicalised IPv4 clients (family-separated reading of the statement)");
     ctx.assume("std's IpAddr::from_str decides whether an address text parses");
-    let v4_offsets: &[u8] = if ctx.quick() { &[0, 4, 13, 24] } else { &[0, 1, 4, 7, 13, 16, 21, 24] };
-    let v6_offsets: &[u8] = if ctx.quick() { &[0, 61, 120] } else { &[0, 4, 30, 61, 64, 93, 117, 120] };
+    let v4_offsets: &[u8] = if ctx.quick() { &[0, 13, 24] } else { &[0, 1, 4, 7, 13, 16, 21, 24] };
+    let v6_offsets: &[u8] = if ctx.quick() { &[4, 61] } else { &[0, 4, 30, 61, 64, 93, 117, 120] };
     let base4: u128 = (0xC0A8_0107u128) << 96; // 192.168.1.7
     let base6: u128 = 0x2001_0db8_85a3_0000_1234_8a2e_0370_7334u128;
     for &off in v4_offsets {
